@@ -515,6 +515,11 @@ fn tol_of(case: &Value) -> f64 {
     if t.get("p2").is_some() { return ulp_step(2f64.powi(-(geti(t, "p2") as i32)), t.get("ulp").and_then(|v| v.as_i64()).unwrap_or(0)); }
     geti(t, "m") as f64 / 10f64.powi(geti(t, "e") as i32)
 }
+/// iteration budget of a case: an integer, or one of the extreme legal values "umax", "umax1", "u32max", "i64max"
+fn budget_of(case: &Value) -> usize {
+    match case["budget"].as_str() { Some("umax") => usize::MAX, Some("umax1") => usize::MAX - 1, Some("u32max") => u32::MAX as usize, Some("i64max") => i64::MAX as usize,
+        Some(o) => { eprintln!("TOOL-ERROR unknown budget {}", o); std::process::exit(2) } None => getu(case, "budget") }
+}
 fn tol_exp(case: &Value) -> i64 { match case["tol"].get("e").and_then(|v| v.as_i64()) { Some(e) => e, None => { let t = tol_of(case); if t > 0.0 && t.is_finite() { (-t.log10()).floor() as i64 } else { 0 } } } }
 
 // ------------------------------------------------------------------ exec
@@ -524,13 +529,13 @@ fn base_event(case: &Value, op: &str, s: &Sys) -> Value {
 }
 
 fn exec_c08(case: &Value, s: &Sys, run: Runner, out: &mut Out) {
-    let tol = tol_of(case); let budget = getu(case, "budget");
+    let tol = tol_of(case); let budget = budget_of(case);
     let a = dense_of(s);
     let mut x = s.x0.clone();
     let r = run(&mut x, budget);
     let fin = all_finite(&x);
     let mut e = base_event(case, "solve", s);
-    e["budget"] = json!(budget.min(SAT as usize)); e["panic"] = json!(r.panic); e["ok"] = json!(r.ok); e["k"] = json!(r.k);
+    e["budget"] = json!(budget.min(SAT as usize)); e["budget_s"] = json!(case["budget"].as_str().unwrap_or("int")); e["panic"] = json!(r.panic); e["ok"] = json!(r.ok); e["k"] = json!(r.k);
     e["x_finite"] = json!(fin); e["xh"] = json!(xhash(&x));
     if budget == 0 { e["xb_pre"] = jbits(&s.x0); e["xb_post"] = jbits(&x); }
     // hook-free observation of the iterates: budgets 1..k from the same guess
@@ -562,7 +567,7 @@ fn exec_c08(case: &Value, s: &Sys, run: Runner, out: &mut Out) {
 }
 
 fn exec_c09(case: &Value, s: &Sys, run: Runner, out: &mut Out) {
-    let kind = gets(case, "kind"); let tol = tol_of(case); let budget = getu(case, "budget");
+    let kind = gets(case, "kind"); let tol = tol_of(case); let budget = budget_of(case);
     let a = dense_of(s);
     let n = s.n;
     let mut x = s.x0.clone();
@@ -596,7 +601,7 @@ fn exec_c09(case: &Value, s: &Sys, run: Runner, out: &mut Out) {
     let agree = if !fin { SAT } else if bzero { units(norm2_dd(&x), 4.0 * s.ainv * tol + f64::MIN_POSITIVE) }
                 else { units(norm2_dd(&diff) / nxd, 4.0 * s.kap * tol + 64.0 * n as f64 * s.kap * EPS) };
     let mut e = base_event(case, "conv", s);
-    e["budget"] = json!(budget); e["panic"] = json!(r.panic); e["ok"] = json!(r.ok); e["k"] = json!(r.k); e["x_finite"] = json!(fin);
+    e["budget"] = json!(budget.min(SAT as usize)); e["budget_s"] = json!(case["budget"].as_str().unwrap_or("int")); e["panic"] = json!(r.panic); e["ok"] = json!(r.ok); e["k"] = json!(r.k); e["x_finite"] = json!(fin);
     e["cgb"] = json!(if cgb.is_finite() && cgb < SAT as f64 { cgb as i64 } else { SAT });
     e["kap"] = json!(units(s.kap, 1.0)); e["agree_units"] = json!(agree);
     e["claimed"] = json!(s.kap > 0.0);
@@ -718,61 +723,97 @@ fn exec_tie(case: &Value, out: &mut Out) {
 }
 
 // ------------------------------------------------------------------ sequences on one Sparse object
+/// position of entry (i, j) in the CSC arrays of the live object (read through its public fields)
+fn csc_pos(a: &Sparse<f64>, i: usize, j: usize) -> Option<usize> { (a.col_start[j]..a.col_start[j + 1]).find(|&k| a.row_index[k] == i) }
+/// CSC arrays of a dense matrix, assembled here (column by column, rows ascending)
+fn csc_of(d: &[Vec<f64>]) -> (Vec<f64>, Vec<usize>, Vec<usize>) {
+    let n = d.len(); let (mut val, mut ri, mut cs) = (vec![], vec![], vec![0usize]);
+    for j in 0..n { for i in 0..n { if d[i][j] != 0.0 { val.push(d[i][j]); ri.push(i); } } cs.push(val.len()); }
+    (val, ri, cs)
+}
+/// one in-place mutation of the live object, mirrored independently on the dense copy; every mutation keeps strict dominance
+fn mutate(live: &mut Sparse<f64>, dense: &mut Vec<Vec<f64>>, m0: &str, rng: &mut StdRng) {
+    let n = dense.len();
+    let symmetric = (0..n).all(|i| (0..n).all(|j| dense[i][j] == dense[j][i]));
+    let offs: Vec<(usize, usize)> = (0..n).flat_map(|i| (0..n).map(move |j| (i, j))).filter(|&(i, j)| i != j && dense[i][j] != 0.0).collect();
+    let zeros: Vec<(usize, usize)> = (0..n).flat_map(|i| (0..n).map(move |j| (i, j))).filter(|&(i, j)| i != j && dense[i][j] == 0.0 && dense[j][i] == 0.0).collect();
+    let mut m = m0;
+    if matches!(m, "over_off" | "val_off") && offs.is_empty() { m = if m == "over_off" { "over_diag" } else { "val_diag" }; }
+    if m == "new" && zeros.is_empty() { m = "over_diag"; }
+    let slack = |a: &Vec<Vec<f64>>, i: usize| -> f64 { a[i][i].abs() - (0..n).filter(|&j| j != i).map(|j| a[i][j].abs()).sum::<f64>() };
+    // direct write of one coefficient through the public field `val`
+    let poke = |live: &mut Sparse<f64>, i: usize, j: usize, v: f64| { if let Some(k) = csc_pos(live, i, j) { live.val[k] = v; } };
+    match m {
+        "over_diag" => { let i = rng.gen_range(0..n); let v = dense[i][i] * rng.gen_range(1.5..=3.0); let _ = guarded(|| live.insert(i, i, v)); dense[i][i] = v; }
+        "over_off" => { let (i, j) = offs[rng.gen_range(0..offs.len())]; let v = dense[i][j] * rng.gen_range(-0.9..=0.9);
+            let _ = guarded(|| live.insert(i, j, v)); dense[i][j] = v;
+            if symmetric { let _ = guarded(|| live.insert(j, i, v)); dense[j][i] = v; } }
+        "new" => { let (i, j) = zeros[rng.gen_range(0..zeros.len())]; let v = sgn(rng) * rng.gen_range(0.1..=0.4) * slack(dense, i).min(slack(dense, j)).max(0.0);
+            let _ = guarded(|| live.insert(i, j, v)); dense[i][j] = v;
+            if symmetric { let _ = guarded(|| live.insert(j, i, v)); dense[j][i] = v; } }
+        "scale" => { let f = rng.gen_range(0.25..=4.0); let _ = guarded(|| live.scale(&f)); for r in dense.iter_mut() { for v in r.iter_mut() { *v *= f; } } }
+        "transpose" => { if let Ok(t) = guarded(|| live.transpose()) { *live = t; } let old = dense.clone(); for i in 0..n { for j in 0..n { dense[i][j] = old[j][i]; } } }
+        // ---- writes through the public fields ----
+        "val_diag" => { let i = rng.gen_range(0..n); let v = dense[i][i] * rng.gen_range(1.5..=3.0); poke(live, i, i, v); dense[i][i] = v; }
+        "val_off" => { let (i, j) = offs[rng.gen_range(0..offs.len())]; let v = dense[i][j] * rng.gen_range(-0.9..=0.9); poke(live, i, j, v); dense[i][j] = v;
+            if symmetric { poke(live, j, i, v); dense[j][i] = v; } }
+        "val_scale" | "val_flip" => { let f = if m == "val_flip" { -1.0 } else { rng.gen_range(0.25..=4.0) }; for v in live.val.iter_mut() { *v *= f; } for r in dense.iter_mut() { for v in r.iter_mut() { *v *= f; } } }
+        // pairs (i,j),(j,i) both present get the smaller magnitude on both sides (symmetric there, dominance kept)
+        "val_sym" => { for i in 0..n { for j in i + 1..n { if dense[i][j] != 0.0 && dense[j][i] != 0.0 { let v = if dense[i][j].abs() <= dense[j][i].abs() { dense[i][j] } else { dense[j][i] };
+            poke(live, i, j, v); poke(live, j, i, v); dense[i][j] = v; dense[j][i] = v; } } } }
+        // the upper triangle is halved: a symmetric matrix becomes nonsymmetric
+        "val_nonsym" => { for i in 0..n { for j in i + 1..n { if dense[i][j] != 0.0 { let v = dense[i][j] * 0.5; poke(live, i, j, v); dense[i][j] = v; } } } }
+        // consistent rewrite of val, row_index, col_start (and nonzero): the transpose with halved off-diagonal entries
+        "rewrite" => { let old = dense.clone(); for i in 0..n { for j in 0..n { dense[i][j] = if i == j { old[i][i] } else { 0.5 * old[j][i] }; } }
+            let (val, ri, cs) = csc_of(dense); live.nonzero = val.len(); live.val = val; live.row_index = ri; live.col_start = cs; }
+        other => { eprintln!("TOOL-ERROR unknown mutator {}", other); std::process::exit(2) }
+    }
+}
 /// One Sparse object lives through: round 0 (products and/or solves), then per round one in-place mutation
 /// (insert overwriting an existing diagonal / off-diagonal entry, insert of a new entry, scale, re-binding to transpose())
 /// followed by a solve with every applicable solver.  The dense matrix is tracked here independently from the
 /// operations and every solve is judged against the CURRENT dense matrix with the usual C08 / C09 guards.
 fn exec_seq(case: &Value, out: &mut Out) {
-    let s0 = build(case);
-    let n = s0.n;
     let c09 = gets(case, "mode") == "seq09";
-    let mut dense = dense_of(&s0);
-    let mut trip = s0.trip.clone();
-    let mut live = match guarded(|| Sparse::<f64>::from_triplets(n, n, &mut trip)) { Ok(a) => a, Err(_) => { eprintln!("TOOL-ERROR from_triplets panicked on a generated system"); std::process::exit(2) } };
+    let nobj = if case.get("alt").and_then(|v| v.as_bool()).unwrap_or(false) { 2 } else { 1 };
+    // one or two objects of the same size (two: solves alternate between them, mutations hit them in turn)
+    let mut objs: Vec<(Sparse<f64>, Vec<Vec<f64>>)> = vec![];
+    let mut n = 0;
+    for o in 0..nobj {
+        let mut c = case.clone(); c["seed"] = json!((geti(case, "seed") + 7919 * o as i64) % (1i64 << 30));
+        let s0 = build(&c); n = s0.n;
+        let mut trip = s0.trip.clone();
+        match guarded(|| Sparse::<f64>::from_triplets(n, n, &mut trip)) { Ok(a) => objs.push((a, dense_of(&s0))), Err(_) => { eprintln!("TOOL-ERROR from_triplets panicked on a generated system"); std::process::exit(2) } }
+    }
     let mut rng = rng(geti(case, "seed") as u64, 12); let rng = &mut rng;
-    let symmetric = (0..n).all(|i| (0..n).all(|j| dense[i][j] == dense[j][i]));
     let muts: Vec<String> = case["muts"].as_array().unwrap().iter().map(|m| m.as_str().unwrap().to_string()).collect();
+    let warm = gets(case, "warm");
     for round in 0..=muts.len() {
-        if round > 0 {
-            let mut m = muts[round - 1].as_str();
-            let offs: Vec<(usize, usize)> = (0..n).flat_map(|i| (0..n).map(move |j| (i, j))).filter(|&(i, j)| i != j && dense[i][j] != 0.0).collect();
-            let zeros: Vec<(usize, usize)> = (0..n).flat_map(|i| (0..n).map(move |j| (i, j))).filter(|&(i, j)| i != j && dense[i][j] == 0.0 && dense[j][i] == 0.0).collect();
-            if m == "over_off" && offs.is_empty() { m = "over_diag"; }
-            if m == "new" && zeros.is_empty() { m = "over_diag"; }
-            let slack = |a: &Vec<Vec<f64>>, i: usize| -> f64 { a[i][i].abs() - (0..n).filter(|&j| j != i).map(|j| a[i][j].abs()).sum::<f64>() };
-            match m {
-                "over_diag" => { let i = rng.gen_range(0..n); let v = dense[i][i] * rng.gen_range(1.5..=3.0); let _ = guarded(|| live.insert(i, i, v)); dense[i][i] = v; }
-                "over_off" => { let (i, j) = offs[rng.gen_range(0..offs.len())]; let v = dense[i][j] * rng.gen_range(-0.9..=0.9);
-                    let _ = guarded(|| live.insert(i, j, v)); dense[i][j] = v;
-                    if symmetric { let _ = guarded(|| live.insert(j, i, v)); dense[j][i] = v; } }
-                "new" => { let (i, j) = zeros[rng.gen_range(0..zeros.len())]; let v = sgn(rng) * rng.gen_range(0.1..=0.4) * slack(&dense, i).min(slack(&dense, j)).max(0.0);
-                    let _ = guarded(|| live.insert(i, j, v)); dense[i][j] = v;
-                    if symmetric { let _ = guarded(|| live.insert(j, i, v)); dense[j][i] = v; } }
-                "scale" => { let f = rng.gen_range(0.25..=4.0); let _ = guarded(|| live.scale(&f)); for r in dense.iter_mut() { for v in r.iter_mut() { *v *= f; } } }
-                "transpose" => { if let Ok(t) = guarded(|| live.transpose()) { live = t; } let old = dense.clone(); for i in 0..n { for j in 0..n { dense[i][j] = old[j][i]; } } }
-                other => { eprintln!("TOOL-ERROR unknown mutator {}", other); std::process::exit(2) }
-            }
-        } else if gets(case, "warm") == "mul" {
-            // round 0 as products only: A x and A^T x on the live object, no solve
-            let v = Vector::create((0..n).map(|_| rng.gen_range(-1.0..=1.0)).collect());
-            let _ = guarded(|| { let _ = live.multiply(&v); let _ = live.transpose_multiply(&v); });
+        if round > 0 { let t = (round - 1) % nobj; let (live, dense) = &mut objs[t]; mutate(live, dense, &muts[round - 1], rng); }
+        else if warm == "none" { continue; }                    // reverse order: the first solve comes after the first mutation
+        else if warm == "mul" {
+            for (live, _) in objs.iter() { let v = Vector::create((0..n).map(|_| rng.gen_range(-1.0..=1.0)).collect());
+                let _ = guarded(|| { let _ = live.multiply(&v); let _ = live.transpose_multiply(&v); }); }
             continue;
         }
-        let (kap, ainv, spd) = cond_dense(&dense);
-        let scale = 10f64.powi(geti(case, "rhs_e") as i32);
-        let xstar: Vec<f64> = (0..n).map(|_| rng.gen_range(-1.0..=1.0) * scale).collect();
-        let b = matvec_dense(&dense, &xstar);
-        for (kind, itol) in KINDS {
-            if kind == "cg" && !spd { continue; }
-            let guess = if rng.gen_bool(0.5) { "zero" } else { "random" };
-            let x0: Vec<f64> = if guess == "zero" { vec![0.0; n] } else { (0..n).map(|_| rng.gen_range(-1.0..=1.0) * scale).collect() };
-            let cur = Sys { n, trip: trip_of(&dense), b: b.clone(), x0, kap, ainv, xref: None };
-            let tol = rand_tol(rng, 3, 11);
-            let budget = if c09 { 2000 } else { [n, 2 * n, 1000, 1000][rng.gen_range(0..4)] };
-            let sc = json!({"cid": geti(case, "cid"), "kind": kind, "itol": itol, "tol": tol, "budget": budget, "guess": guess, "fam": gets(case, "fam"), "mode": gets(case, "mode")});
-            let tolf = tol_of(&sc);
-            let mut run = |x: &mut Vec<f64>, bud: usize| call_on(&live, &b, kind, itol as usize, x, bud, tolf);
-            if c09 { exec_c09(&sc, &cur, &mut run, out); } else { exec_c08(&sc, &cur, &mut run, out); }
+        for oi in 0..nobj {
+            let (live, dense) = &objs[(oi + round) % nobj];
+            let (kap, ainv, spd) = cond_dense(dense);
+            let scale = 10f64.powi(geti(case, "rhs_e") as i32);
+            let xstar: Vec<f64> = (0..n).map(|_| rng.gen_range(-1.0..=1.0) * scale).collect();
+            let b = matvec_dense(dense, &xstar);
+            for (kind, itol) in KINDS {
+                if kind == "cg" && !spd { continue; }
+                let guess = if rng.gen_bool(0.5) { "zero" } else { "random" };
+                let x0: Vec<f64> = if guess == "zero" { vec![0.0; n] } else { (0..n).map(|_| rng.gen_range(-1.0..=1.0) * scale).collect() };
+                let cur = Sys { n, trip: trip_of(dense), b: b.clone(), x0, kap, ainv, xref: None };
+                let tol = rand_tol(rng, 3, 11);
+                let budget = if c09 { 2000 } else { [n, 2 * n, 1000, 1000][rng.gen_range(0..4)] };
+                let sc = json!({"cid": geti(case, "cid"), "kind": kind, "itol": itol, "tol": tol, "budget": budget, "guess": guess, "fam": gets(case, "fam"), "mode": gets(case, "mode")});
+                let tolf = tol_of(&sc);
+                let mut run = |x: &mut Vec<f64>, bud: usize| call_on(live, &b, kind, itol as usize, x, bud, tolf);
+                if c09 { exec_c09(&sc, &cur, &mut run, out); } else { exec_c08(&sc, &cur, &mut run, out); }
+            }
         }
     }
 }
@@ -970,14 +1011,25 @@ fn gen_tie(quick: bool, rng: &mut StdRng, push: &mut dyn FnMut(Value)) {
 
 /// sequences on one Sparse object (mode seq08 / seq09): two in-place mutations, all solvers after each
 fn gen_seq(quick: bool, mode: &str, rng: &mut StdRng, push: &mut dyn FnMut(Value)) {
-    let muts = ["over_diag", "over_off", "new", "scale", "transpose"];
+    let muts = ["over_diag", "over_off", "new", "scale", "transpose", "val_diag", "val_off", "val_scale", "val_flip", "val_sym", "val_nonsym", "rewrite"];
     let fams = ["spd", "dd", "rcs"];
-    for i in 0..(if quick { 120 } else { 1500 }) {
+    for i in 0..(if quick { 240 } else { 2400 }) {
         let n = if i % 2 == 0 { rng.gen_range(3..=8usize) } else { rng.gen_range(3..=40usize) };
-        push(json!({"mode": mode, "fam": fams[i % 3], "sub": rng.gen_range(0..7), "n": n, "seed": rng.gen_range(0..1i64 << 30), "warm": if i % 4 == 3 { "mul" } else { "solve" },
-                    "muts": [muts[i % 5], muts[(i / 5 + i) % 5]], "rhs": "ax", "rhs_e": rng.gen_range(-8..=8), "guess": "zero",
+        // round 0: solves ("solve"), products only ("mul"), or nothing ("none": the first solve follows the first mutation); one case in five
+        // runs two objects of the same size in alternation
+        let warm = ["solve", "solve", "mul", "none", "solve"][i % 5];
+        push(json!({"mode": mode, "fam": fams[i % 3], "sub": rng.gen_range(0..7), "n": n, "seed": rng.gen_range(0..1i64 << 30), "warm": warm, "alt": (i % 5 == 4),
+                    "muts": [muts[i % 12], muts[(i / 12 + 5 * i + 3) % 12]], "rhs": "ax", "rhs_e": rng.gen_range(-8..=8), "guess": "zero",
                     "kind": "bicg", "itol": 1, "budget": 2000, "tol": {"m": 1, "e": 8}}));
     }
+}
+/// extreme but legal iteration budgets on small well-posed systems, every solver variant
+fn gen_bigbudget(mode: &str, rng: &mut StdRng, push: &mut dyn FnMut(Value)) {
+    for rep in 0..3 { for bs in ["umax", "umax1", "u32max", "i64max"] { for (kind, itol) in KINDS {
+        let fam = if kind == "cg" || rep == 0 { "spd" } else { "dd" };
+        push(json!({"mode": mode, "fam": fam, "n": rng.gen_range(1..=12), "seed": rng.gen_range(0..1i64 << 30), "kind": kind, "itol": itol, "budget": bs,
+                    "tol": rand_tol(rng, 3, 10), "rhs": (["rand", "ax"][rng.gen_range(0..2)]), "rhs_e": rng.gen_range(-8..=8), "guess": (["zero", "random"][rng.gen_range(0..2)])}));
+    } } }
 }
 
 fn gen_c09(quick: bool, rng: &mut StdRng, push: &mut dyn FnMut(Value)) {
@@ -1010,9 +1062,9 @@ pub fn gen(tier: &str, seed: u64, out: &mut Out) {
     let mut cid = 0i64;
     let mut cases: Vec<Value> = vec![];
     { let mut push = |mut c: Value| { cid += 1; c["cid"] = json!(cid); c["suite"] = json!("krylov"); cases.push(c); };
-      if mode != "c09" && mode != "upw" && mode != "far" { let mut r = rng(seed, 8); gen_c08(quick, &mut r, &mut push); gen_struct(quick, &mut r, &mut push); gen_seq(quick, "seq08", &mut r, &mut push); gen_eig(quick, &mut r, &mut push); gen_scales(quick, &mut r, &mut push); gen_tie(quick, &mut r, &mut push); }
+      if mode != "c09" && mode != "upw" && mode != "far" { let mut r = rng(seed, 8); gen_c08(quick, &mut r, &mut push); gen_struct(quick, &mut r, &mut push); gen_seq(quick, "seq08", &mut r, &mut push); gen_eig(quick, &mut r, &mut push); gen_scales(quick, &mut r, &mut push); gen_tie(quick, &mut r, &mut push); gen_bigbudget("c08", &mut r, &mut push); }
       if mode == "upw" { let mut r = rng(seed, 10); gen_upw(quick, &mut r, &mut push); }
       else if mode == "far" { let mut r = rng(seed, 15); gen_far(quick, &mut r, &mut push); }
-      else if mode != "c08" { let mut r = rng(seed, 9); gen_c09(quick, &mut r, &mut push); gen_seq(quick, "seq09", &mut r, &mut push); let mut r = rng(seed, 10); gen_upw(quick, &mut r, &mut push); let mut r = rng(seed, 15); gen_far(quick, &mut r, &mut push); } }
+      else if mode != "c08" { let mut r = rng(seed, 9); gen_c09(quick, &mut r, &mut push); gen_seq(quick, "seq09", &mut r, &mut push); let mut r = rng(seed, 10); gen_upw(quick, &mut r, &mut push); let mut r = rng(seed, 15); gen_far(quick, &mut r, &mut push); gen_bigbudget("c09", &mut r, &mut push); } }
     for c in &cases { out.raw(c); }
 }
